@@ -38,7 +38,7 @@ CONSTANTS
   EqPats = %(eqpats)s
   RePats = %(repats)s
   Ops = %(ops)s
-  BitWidth = 8
+  BitWidth = 64
   AllowEmpty = %(allowempty)s
   AlwaysRow = %(alwaysrow)s
   Plan1 = %(plan1)d
@@ -214,7 +214,8 @@ def run(tier):
         par.go('cur_sane', tlc_run, 'MC_PromCursorExport.tla',
                CURSOR_CFG % dict(cb, props='INVARIANTS TypeOK RefSane\nPROPERTIES Monotone SeekLands'), 'cur_sane',
                {'cursor_ref.json': refp, 'cursor_impl.json': implp})
-        confs = (('cur_conf_ne', 'ConformsNonEmpty'),) if quick else (('cur_conf', 'Conforms'), ('cur_conf_ne', 'ConformsNonEmpty'))
+        # the repaired cursor conforms on every array, the empty one included: the whole property in both tiers
+        confs = (('cur_conf', 'Conforms'),)
         for tag, inv in confs:
             par.go(tag, tlc_run, 'MC_PromCursor.tla', CURSOR_CFG % dict(cb, props='INVARIANTS ' + inv), tag,
                    {'cex_%s.json' % tag: os.path.join(sd, 'cex_%s.json' % tag)}, 2, 600, True)
@@ -352,7 +353,7 @@ def run(tier):
         return {'level': 'model_checking', 'coverage': cov, 'violations': uniq,
                 'assumptions': ['ClickHouse is the reference interpreter chsql (match() searches anywhere, bitShiftLeft keeps the UInt8 width); tables and materialized views come from the real DDL',
                                 'label values contain no newline and profile type parts no ":" or ";"; an empty matcher list is not a Prometheus selector',
-                                'a stored series is expected in a Select result only if it has a sample in (start, end] (milliseconds); the reference for PromQL results is the vendored Prometheus engine over its own TSDB (closed range windows [t-range, t])',
+                                'a stored series is expected in a Select result only if it has a sample in [start, end] (milliseconds, the bounds of storage.SelectHints are inclusive); the reference for PromQL results is the vendored Prometheus engine over its own TSDB (closed range windows [t-range, t])',
                                 'sample timestamps are whole milliseconds (remote write resolution)']}
     finally:
         shutil.rmtree(sd, ignore_errors=True)
